@@ -1,0 +1,419 @@
+// Copyright (c) 2023 Contributors to the Eclipse Foundation
+//
+// See the NOTICE file(s) distributed with this work for additional
+// information regarding copyright ownership.
+//
+// This program and the accompanying materials are made available under the
+// terms of the Apache Software License 2.0 which is available at
+// https://www.apache.org/licenses/LICENSE-2.0, or the MIT license
+// which is available at https://opensource.org/licenses/MIT.
+//
+// SPDX-License-Identifier: Apache-2.0 OR MIT
+
+// Verification hook (cfg iceoryx2_verif): same public surface as `atomic.rs`, but the
+// fixed-width atomic types are transparent wrappers that report every operation to an
+// externally installed hook table. With no table installed they behave exactly like the
+// core atomics. Layout (size, alignment) is identical to the core atomics.
+
+#![allow(clippy::disallowed_types)]
+
+#[path = "atomic.rs"]
+mod plain;
+
+pub use plain::Atomic;
+pub use plain::Ordering;
+pub use plain::internal;
+
+use core::sync::atomic::AtomicPtr;
+
+/// Kind of an atomic access reported to the hook.
+#[derive(Debug, Clone, Copy, PartialEq, Eq)]
+#[repr(u8)]
+pub enum Kind {
+    Load = 0,
+    Store = 1,
+    Rmw = 2,
+    CasOk = 3,
+    CasFail = 4,
+    Fence = 5,
+}
+
+/// Hook table. All functions are called on the thread that performs the access.
+#[repr(C)]
+pub struct Hooks {
+    /// called before the access is performed (scheduling point)
+    pub pre: fn(addr: usize, size: u8, kind: Kind, order: Ordering),
+    /// called with the value that was really read by a pure load; returns the value the
+    /// load shall report to the caller
+    pub load: fn(addr: usize, size: u8, order: Ordering, real: u64) -> u64,
+    /// called after a store / read-modify-write / compare-exchange was performed
+    pub post: fn(addr: usize, size: u8, kind: Kind, order: Ordering, old: u64, new: u64),
+}
+
+static HOOKS: AtomicPtr<Hooks> = AtomicPtr::new(core::ptr::null_mut());
+
+/// Installs (or with null removes) the hook table.
+///
+/// # Safety
+///
+///  * the table must outlive all atomic accesses
+pub unsafe fn set_hooks(hooks: *const Hooks) {
+    HOOKS.store(hooks as *mut Hooks, core::sync::atomic::Ordering::SeqCst);
+}
+
+#[inline(always)]
+fn hooks() -> Option<&'static Hooks> {
+    let p = HOOKS.load(core::sync::atomic::Ordering::Relaxed);
+    if p.is_null() { None } else { Some(unsafe { &*p }) }
+}
+
+pub fn fence(order: Ordering) {
+    if let Some(h) = hooks() {
+        (h.pre)(0, 0, Kind::Fence, order);
+    }
+    plain::fence(order);
+    if let Some(h) = hooks() {
+        (h.post)(0, 0, Kind::Fence, order, 0, 0);
+    }
+}
+
+macro_rules! verif_atomic_int {
+    ($name:ident, $base:ty) => {
+        #[repr(transparent)]
+        pub struct $name(plain::$name);
+
+        impl Default for $name {
+            fn default() -> Self {
+                Self::new(<$base>::default())
+            }
+        }
+
+        impl core::fmt::Debug for $name {
+            fn fmt(&self, f: &mut core::fmt::Formatter<'_>) -> core::fmt::Result {
+                core::fmt::Debug::fmt(&self.0, f)
+            }
+        }
+
+        impl From<$base> for $name {
+            fn from(v: $base) -> Self {
+                Self::new(v)
+            }
+        }
+
+        impl $name {
+            #[inline]
+            pub const fn new(v: $base) -> Self {
+                Self(plain::$name::new(v))
+            }
+
+            #[inline(always)]
+            fn addr(&self) -> usize {
+                self as *const Self as usize
+            }
+
+            pub const fn as_ptr(&self) -> *mut $base {
+                self.0.as_ptr()
+            }
+
+            pub fn get_mut(&mut self) -> &mut $base {
+                self.0.get_mut()
+            }
+
+            pub fn into_inner(self) -> $base {
+                self.0.into_inner()
+            }
+
+            pub fn load(&self, order: Ordering) -> $base {
+                match hooks() {
+                    None => self.0.load(order),
+                    Some(h) => {
+                        (h.pre)(self.addr(), size_of::<$base>() as u8, Kind::Load, order);
+                        let real = self.0.load(order);
+                        (h.load)(self.addr(), size_of::<$base>() as u8, order, real as u64) as $base
+                    }
+                }
+            }
+
+            pub fn store(&self, value: $base, order: Ordering) {
+                match hooks() {
+                    None => self.0.store(value, order),
+                    Some(h) => {
+                        (h.pre)(self.addr(), size_of::<$base>() as u8, Kind::Store, order);
+                        let old = self.0.swap(value, Ordering::SeqCst);
+                        (h.post)(
+                            self.addr(),
+                            size_of::<$base>() as u8,
+                            Kind::Store,
+                            order,
+                            old as u64,
+                            value as u64,
+                        );
+                    }
+                }
+            }
+
+            #[inline(always)]
+            fn rmw<F: FnOnce(&plain::$name) -> $base>(&self, order: Ordering, f: F) -> $base {
+                match hooks() {
+                    None => f(&self.0),
+                    Some(h) => {
+                        (h.pre)(self.addr(), size_of::<$base>() as u8, Kind::Rmw, order);
+                        let old = f(&self.0);
+                        let new = self.0.load(Ordering::SeqCst);
+                        (h.post)(
+                            self.addr(),
+                            size_of::<$base>() as u8,
+                            Kind::Rmw,
+                            order,
+                            old as u64,
+                            new as u64,
+                        );
+                        old
+                    }
+                }
+            }
+
+            pub fn swap(&self, value: $base, order: Ordering) -> $base {
+                self.rmw(order, |a| a.swap(value, order))
+            }
+
+            pub fn fetch_add(&self, value: $base, order: Ordering) -> $base {
+                self.rmw(order, |a| a.fetch_add(value, order))
+            }
+
+            pub fn fetch_sub(&self, value: $base, order: Ordering) -> $base {
+                self.rmw(order, |a| a.fetch_sub(value, order))
+            }
+
+            pub fn fetch_and(&self, value: $base, order: Ordering) -> $base {
+                self.rmw(order, |a| a.fetch_and(value, order))
+            }
+
+            pub fn fetch_nand(&self, value: $base, order: Ordering) -> $base {
+                self.rmw(order, |a| a.fetch_nand(value, order))
+            }
+
+            pub fn fetch_or(&self, value: $base, order: Ordering) -> $base {
+                self.rmw(order, |a| a.fetch_or(value, order))
+            }
+
+            pub fn fetch_xor(&self, value: $base, order: Ordering) -> $base {
+                self.rmw(order, |a| a.fetch_xor(value, order))
+            }
+
+            pub fn fetch_max(&self, value: $base, order: Ordering) -> $base {
+                self.rmw(order, |a| a.fetch_max(value, order))
+            }
+
+            pub fn fetch_min(&self, value: $base, order: Ordering) -> $base {
+                self.rmw(order, |a| a.fetch_min(value, order))
+            }
+
+            pub fn compare_exchange(
+                &self,
+                current: $base,
+                new: $base,
+                success: Ordering,
+                failure: Ordering,
+            ) -> Result<$base, $base> {
+                match hooks() {
+                    None => self.0.compare_exchange(current, new, success, failure),
+                    Some(h) => {
+                        (h.pre)(self.addr(), size_of::<$base>() as u8, Kind::Rmw, success);
+                        let r = self.0.compare_exchange(current, new, success, failure);
+                        match r {
+                            Ok(old) => (h.post)(
+                                self.addr(),
+                                size_of::<$base>() as u8,
+                                Kind::CasOk,
+                                success,
+                                old as u64,
+                                new as u64,
+                            ),
+                            Err(old) => (h.post)(
+                                self.addr(),
+                                size_of::<$base>() as u8,
+                                Kind::CasFail,
+                                failure,
+                                old as u64,
+                                old as u64,
+                            ),
+                        }
+                        r
+                    }
+                }
+            }
+
+            pub fn compare_exchange_weak(
+                &self,
+                current: $base,
+                new: $base,
+                success: Ordering,
+                failure: Ordering,
+            ) -> Result<$base, $base> {
+                self.compare_exchange(current, new, success, failure)
+            }
+
+            pub fn fetch_update<F: FnMut($base) -> Option<$base>>(
+                &self,
+                set_order: Ordering,
+                fetch_order: Ordering,
+                mut f: F,
+            ) -> Result<$base, $base> {
+                let mut prev = self.load(fetch_order);
+                while let Some(next) = f(prev) {
+                    match self.compare_exchange_weak(prev, next, set_order, fetch_order) {
+                        x @ Ok(_) => return x,
+                        Err(next_prev) => prev = next_prev,
+                    }
+                }
+                Err(prev)
+            }
+        }
+    };
+}
+
+verif_atomic_int!(AtomicU8, u8);
+verif_atomic_int!(AtomicU16, u16);
+verif_atomic_int!(AtomicU32, u32);
+verif_atomic_int!(AtomicU64, u64);
+verif_atomic_int!(AtomicUsize, usize);
+verif_atomic_int!(AtomicI8, i8);
+verif_atomic_int!(AtomicI16, i16);
+verif_atomic_int!(AtomicI32, i32);
+verif_atomic_int!(AtomicI64, i64);
+verif_atomic_int!(AtomicIsize, isize);
+
+#[repr(transparent)]
+pub struct AtomicBool(plain::AtomicBool);
+
+impl Default for AtomicBool {
+    fn default() -> Self {
+        Self::new(false)
+    }
+}
+
+impl core::fmt::Debug for AtomicBool {
+    fn fmt(&self, f: &mut core::fmt::Formatter<'_>) -> core::fmt::Result {
+        core::fmt::Debug::fmt(&self.0, f)
+    }
+}
+
+impl From<bool> for AtomicBool {
+    fn from(v: bool) -> Self {
+        Self::new(v)
+    }
+}
+
+impl AtomicBool {
+    #[inline]
+    pub const fn new(v: bool) -> Self {
+        Self(plain::AtomicBool::new(v))
+    }
+
+    #[inline(always)]
+    fn addr(&self) -> usize {
+        self as *const Self as usize
+    }
+
+    pub const fn as_ptr(&self) -> *mut bool {
+        self.0.as_ptr()
+    }
+
+    pub fn get_mut(&mut self) -> &mut bool {
+        self.0.get_mut()
+    }
+
+    pub fn into_inner(self) -> bool {
+        self.0.into_inner()
+    }
+
+    pub fn load(&self, order: Ordering) -> bool {
+        match hooks() {
+            None => self.0.load(order),
+            Some(h) => {
+                (h.pre)(self.addr(), 1, Kind::Load, order);
+                let real = self.0.load(order);
+                (h.load)(self.addr(), 1, order, real as u64) != 0
+            }
+        }
+    }
+
+    pub fn store(&self, value: bool, order: Ordering) {
+        match hooks() {
+            None => self.0.store(value, order),
+            Some(h) => {
+                (h.pre)(self.addr(), 1, Kind::Store, order);
+                let old = self.0.swap(value, Ordering::SeqCst);
+                (h.post)(self.addr(), 1, Kind::Store, order, old as u64, value as u64);
+            }
+        }
+    }
+
+    #[inline(always)]
+    fn rmw<F: FnOnce(&plain::AtomicBool) -> bool>(&self, order: Ordering, f: F) -> bool {
+        match hooks() {
+            None => f(&self.0),
+            Some(h) => {
+                (h.pre)(self.addr(), 1, Kind::Rmw, order);
+                let old = f(&self.0);
+                let new = self.0.load(Ordering::SeqCst);
+                (h.post)(self.addr(), 1, Kind::Rmw, order, old as u64, new as u64);
+                old
+            }
+        }
+    }
+
+    pub fn swap(&self, value: bool, order: Ordering) -> bool {
+        self.rmw(order, |a| a.swap(value, order))
+    }
+
+    pub fn fetch_and(&self, value: bool, order: Ordering) -> bool {
+        self.rmw(order, |a| a.fetch_and(value, order))
+    }
+
+    pub fn fetch_nand(&self, value: bool, order: Ordering) -> bool {
+        self.rmw(order, |a| a.fetch_nand(value, order))
+    }
+
+    pub fn fetch_or(&self, value: bool, order: Ordering) -> bool {
+        self.rmw(order, |a| a.fetch_or(value, order))
+    }
+
+    pub fn fetch_xor(&self, value: bool, order: Ordering) -> bool {
+        self.rmw(order, |a| a.fetch_xor(value, order))
+    }
+
+    pub fn compare_exchange(
+        &self,
+        current: bool,
+        new: bool,
+        success: Ordering,
+        failure: Ordering,
+    ) -> Result<bool, bool> {
+        match hooks() {
+            None => self.0.compare_exchange(current, new, success, failure),
+            Some(h) => {
+                (h.pre)(self.addr(), 1, Kind::Rmw, success);
+                let r = self.0.compare_exchange(current, new, success, failure);
+                match r {
+                    Ok(old) => (h.post)(self.addr(), 1, Kind::CasOk, success, old as u64, new as u64),
+                    Err(old) => {
+                        (h.post)(self.addr(), 1, Kind::CasFail, failure, old as u64, old as u64)
+                    }
+                }
+                r
+            }
+        }
+    }
+
+    pub fn compare_exchange_weak(
+        &self,
+        current: bool,
+        new: bool,
+        success: Ordering,
+        failure: Ordering,
+    ) -> Result<bool, bool> {
+        self.compare_exchange(current, new, success, failure)
+    }
+}
